@@ -8,7 +8,7 @@ bytes.  DESIGN.md §4 C02.
 from __future__ import annotations
 
 from .. import treecheck
-from ..treeprop import DROP_ASC, DROP_DESC, HOLD_ASC, HOLD_DESC, TreeProp
+from ..treeprop import DROP_ASC, DROP_DESC, GC_DROP, HOLD_ASC, HOLD_DESC, TreeProp
 
 QUICK = [
     ("S1", DROP_ASC, 2, "FULL"),
@@ -22,6 +22,8 @@ THOROUGH = []
 for _c in (DROP_ASC, HOLD_DESC, DROP_DESC, HOLD_ASC):
     THOROUGH += [("S1", _c, 3, "FULL"), ("S2", _c, 2, "FULL"), ("S2r", _c, 2, "FULL"), ("S0", _c, 4, "FULL"),
                  ("S2", _c, 3, "STRUCT"), ("S1", _c, 4, "STRUCT"), ("S1r", _c, 3, "STRUCT")]
+
+THOROUGH += [("S2", GC_DROP, 2, "GCOPS"), ("S4", GC_DROP, 1, "GCOPS")]
 
 P = TreeProp(
     "C02",
